@@ -107,8 +107,9 @@ class JavaBaseType(JavaBase):
 
     @cached_property
     def comment(self):
+        # javac translates unicode escapes before it recognises comments: no backslash may be followed by 'u' in the documentation
         return JavaDocCommentRenderer(self.config.identifier).render_tokens(*self.decl.parsed_comment).strip() \
-            if self.decl.comment else ''
+            .replace("\\u", "&#92;u") if self.decl.comment else ''
 
     @cached_property
     def class_modifier(self):
@@ -127,8 +128,9 @@ class JavaBaseField(JavaBase):
 
     @cached_property
     def comment(self):
+        # javac translates unicode escapes before it recognises comments: no backslash may be followed by 'u' in the documentation
         return JavaDocCommentRenderer(self.config.identifier).render_tokens(*self.decl.parsed_comment).strip() \
-            if self.decl.comment else ''
+            .replace("\\u", "&#92;u") if self.decl.comment else ''
 
     @cached_property
     def data_type(self) -> str: return self.compute_data_type(self.decl.type_ref)
